@@ -29,4 +29,4 @@ for c in $CHECKS; do
   cd $VERIF; VERIF_REPO=$WT ./check $c quick 2>&1 | grep "^violation\|^VIOLATION\|^runs=\|^check:" | cut -c1-200
   echo "   exit=${PIPESTATUS[0]}"
 done
-rm -f $VERIF/replays/*.json
+mkdir -p $VERIF/seeded/$ID/replays; mv $VERIF/replays/*.json $VERIF/seeded/$ID/replays/ 2>/dev/null; true
